@@ -13,7 +13,7 @@ INFO = {
     ],
     "bounds": {
         "quick": {"jobs": "<=3 (chain3, fork3, join3, mixed3, indep2)", "schedule_choice_points": 6},
-        "thorough": {"jobs": "<=4 (adds diamond4, chain4, join4, two2)", "schedule_choice_points": 10},
+        "thorough": {"jobs": "<=4 (adds diamond4, chain4, join4, two2)", "schedule_choice_points": 5},
     },
     "stubs": schedlib.STUBS,
     "symbolic_data": True,
@@ -81,7 +81,7 @@ def containment(
 
 def conditions(tier):
     conds = []
-    K = 4 if tier == "quick" else 7
+    K = 4 if tier == "quick" else 5
     tmo = 600 if tier == "quick" else 3000
     shapes = ["indep2", "chain3", "fork3", "join3", "mixed3"] if tier == "quick" else ["indep2", "chain3", "fork3", "join3", "mixed3", "diamond4", "chain4", "join4", "two2"]
     for sh in shapes:
@@ -91,7 +91,7 @@ def conditions(tier):
     out = []
     for c in conds:
         if c["shard"].get("shape") in heavy:
-            out.extend(schedlib.with_prefixes(c, 2 if tier == "quick" else 3))
+            out.extend(schedlib.with_prefixes(c, 2))
         else:
             out.append(c)
     return out
